@@ -9,7 +9,7 @@ PROP = 'C03'
 
 
 def Cases(tier):
-  n = int(os.environ.get('VERIF_N', 0)) or (120 if tier == 'quick' else 3000)
+  n = int(os.environ.get('VERIF_N', 0)) or (120 if tier == 'quick' else 1200)
   depths = genrec.DEPTHS_QUICK if tier == 'quick' else genrec.DEPTHS_THOROUGH
   rng = common.Rng(PROP)
   cases = []
